@@ -168,9 +168,13 @@ fn parallel_huff_parse<V: zipora::entropy::parallel::ParallelVariant>(b: &[u8], 
     d.decode(rest, n).is_ok()
 }
 
-fn parallel_huff_seeds<V: zipora::entropy::parallel::ParallelVariant>(_t: Tier) -> Vec<Seed> {
+fn parallel_huff_seeds<V: zipora::entropy::parallel::ParallelVariant>(t: Tier) -> Vec<Seed> {
+    // (ParallelHuffmanDecoder::decode forwards to HuffmanDecoder::decode of its first decoder)
     let mut v = Vec::new();
     for (sel, label, p) in selected_models() {
+        if t == Tier::Quick && !matches!(label, "a" | "abab" | "text") {
+            continue;
+        }
         if let Ok(mut e) = ParallelHuffmanEncoder::<V>::new(ParallelConfig::default()) {
             if e.train(&p).is_ok() {
                 if let Ok(bits) = e.encode(&p) {
@@ -306,8 +310,10 @@ fn xn_sel_seeds<const N: u8>(t: Tier) -> Vec<Seed> {
     let mut v = Vec::new();
     for (sel, label, p) in xn_models(t) {
         let Some(enc) = ctx_model(1, sel as usize) else { continue };
+        // quick: the full payload for x4, its first 3 bytes for the other factors (every case costs ~25 ms)
+        let p = if t == Tier::Quick && N != 4 { p[..p.len().min(3)].to_vec() } else { p };
         if let Ok(bits) = enc.encode_with_interleaving(&p, factor(N)) {
-            v.push(seed(&format!("x{N}[model={label}]"), with_sel(sel, &bits), p.len()));
+            v.push(seed(&format!("x{N}[model={label}][{}]", p.len()), with_sel(sel, &bits), p.len()));
         }
     }
     v
